@@ -285,6 +285,25 @@ def one_map(run, seed, idx, mods, tmap):
         if np.abs(first[okB] - cfirst[okB]).max(initial=0) > 1e-10:
             V("TensorMap:%s:direct:closed-form" % order, "directly computed strain map differs from the Biot strain of the "
               "known stretch of the voxel's own phase by %.3g" % np.abs(first[okB] - cfirst[okB]).max(initial=0))
+        # the other accessors that derive from the cached strain must not disturb it: hydrostatic + deviatoric parts, read
+        # in either order, then the strain maps again (same object, a history of property reads)
+        snap_a, snap_b = np.array(a, copy=True), np.array(b, copy=True)
+        with contextlib.redirect_stdout(io.StringIO()):
+            if idx % 2:
+                dv_, hy_ = tm.eps_devia, tm.eps_hydro
+            else:
+                hy_, dv_ = tm.eps_hydro, tm.eps_devia
+            a2, b2 = tm.eps_sample.reshape(n, 3, 3), tm.eps_crystal.reshape(n, 3, 3)
+        hy_, dv_ = np.asarray(hy_).reshape(n, 3, 3), np.asarray(dv_).reshape(n, 3, 3)
+        run.count("tensormap_accessor_histories")
+        if not (np.array_equal(a2[okB], snap_a[okB]) and np.array_equal(b2[okB], snap_b[okB])):
+            V("TensorMap:%s:strain-changed-by-reading-devia" % order, "eps_sample / eps_crystal changed (by %.3g) after eps_hydro "
+              "and eps_devia were read" % max(np.abs(a2[okB] - snap_a[okB]).max(initial=0), np.abs(b2[okB] - snap_b[okB]).max(initial=0)))
+        tr = np.trace(snap_a[okB], axis1=1, axis2=2)
+        if okB.any() and (np.abs(hy_[okB] - (tr / 3)[:, None, None] * np.eye(3)).max() > 1e-12 or
+                          np.abs(dv_[okB] + hy_[okB] - snap_a[okB]).max() > 1e-12 or
+                          np.abs(np.trace(dv_[okB], axis1=1, axis2=2)).max() > 1e-12):
+            V("TensorMap:%s:hydro-devia" % order, "eps_hydro is not tr(E)/3.I of eps_sample, or eps_devia is not the traceless rest")
         # the second one is rotated from the cache with the map's own U: law E_s = U E_c U^T
         for i in np.nonzero(okB)[0]:
             law = np.abs(a[i] - U[i] @ b[i] @ U[i].T).max()
